@@ -239,7 +239,10 @@ func (rl *Shell) viAddEol() {
 // Move forward one character, without changing lines.
 func (rl *Shell) viForwardChar() {
 	// Only exception where we actually don't forward a character.
-	if rl.Config.GetBool("history-autosuggest") && rl.cursor.Pos() == rl.line.Len()-1 {
+	// (A movement given to an operator, or one that extends the visual
+	// selection, only designates text: nothing is accepted.)
+	if rl.Config.GetBool("history-autosuggest") && rl.cursor.Pos() == rl.line.Len()-1 &&
+		rl.Keymap.Local() != keymap.ViOpp && rl.Keymap.Local() != keymap.Visual {
 		rl.autosuggestAccept()
 		return
 	}
